@@ -578,10 +578,13 @@ class FunctionVerifier:
             raise OutsideSubset('break/continue outside loop')
         if outcome is not None:
             I.loop_ctx = []
-            if outcome[0] == 'return':
-                self.check_post(I, outcome[1])
-            else:
-                self.check_raise(I, outcome[1])
+            try:
+                if outcome[0] == 'return':
+                    self.check_post(I, outcome[1])
+                else:
+                    self.check_raise(I, outcome[1])
+            except PathEnd:
+                pass        # the exit ghost code found the path infeasible
         return I
 
     def check_frame(self, I):
@@ -613,6 +616,17 @@ class FunctionVerifier:
                 I.env = env
                 I.oblige('return/type', False, 'postcondition')
                 return
+        # ghost code at the exit (lemma calls that the postconditions need): runs in the final environment of the path,
+        # locals included, with `result` bound; it can only add obligations (lemma preconditions) and proved facts
+        for src in getattr(c, 'ghost_exit', None) or []:
+            saved_full = I.env
+            I.env = dict(I.env)
+            if 'result' in env:
+                I.env['result'] = env['result']
+            try:
+                I.exec_ghost(src)
+            finally:
+                I.env = saved_full
         saved = I.env
         I.env = env
         for cl in c.ensures:
